@@ -318,11 +318,14 @@ def solve_one(ob, timeout_s=60, second=False, seed=0):
     return res
 
 
+def _strkeys(env): return {k: v for k, v in env.items() if isinstance(k, str)}
+
+
 def numeric_probe(ob, seed, tries=4000, want=200):
     """fallback for undecided obligations without uninterpreted applications: evaluate at random admissible points.
     A numeric violation is a validated counterexample; agreement leaves the obligation undecided."""
     xs = list(ob.hyps) + [ob.goal]
-    if collect(xs, lambda n: isinstance(n, T) and n.op == 'app'): return None
+    apps = collect(xs, lambda n: isinstance(n, T) and n.op == 'app')
     fv = free_vars(*xs)
     rng = random.Random(seed + 17)
     ranges = ob.meta.get('ranges', {})
@@ -332,16 +335,19 @@ def numeric_probe(ob, seed, tries=4000, want=200):
         for n, t in fv.items():
             lo, hi = ranges.get(n, (-3.0, 3.0))
             env[n] = rng.randint(int(lo), int(hi)) if t.a[1] == 'I' else rng.uniform(lo, hi)
+        for a in apps:       # callee results are universally quantified too (subject to the assumed postconditions in hyps)
+            lo, hi = ranges.get(a.a[0], (0.1, 3.0))
+            env[('#', a.id)] = rng.uniform(lo, hi)
         memo = {}
         try:
             if not all(evb3(h, env, memo) is True for h in ob.hyps): continue
             hits += 1
             if ob.expect == 'sat':
                 if ob.goal is FALSE or ob.goal is TRUE or evb3(ob.goal, env, memo) is False:
-                    return dict(status='discharged', detail='witness found by sampling', model=env, backend='numeric-sampling')
+                    return dict(status='discharged', detail='witness found by sampling', model=_strkeys(env), backend='numeric-sampling')
                 continue
             if evb3(ob.goal, env, memo) is False:
-                return dict(status='refuted', detail='numeric counterexample found by sampling', model=env)
+                return dict(status='refuted', detail='numeric counterexample found by sampling', model=_strkeys(env))
         except EvalError:
             continue
         if hits >= want: break
